@@ -288,6 +288,8 @@ def run(pid, ctx, rep):
         sweep_cfg(ctx, rep, kmain=3, ksub=1)
     elif pid == "C10":
         sweep_gtxn(ctx, rep)
+    elif pid == "C20":
+        sweep_regex(ctx, rep)
 
 
 # ---------------------------------------------------------------------------------------------- gtxn keys through the fixpoint (C10)
@@ -389,3 +391,76 @@ def sweep_gtxn(ctx, rep, rule="T-FIXPOINT(gtxn)", cfg=None, minimum=50):
     rep.samples.append({"rule": rule, "case": {"programs": total}, "verdict": "ok" if not bad else "disagreements"})
     if total < minimum:
         raise AnalysisError(f"only {total} programs evaluated")
+
+
+# ---------------------------------------------------------------------------------------------- regex sweep (C20)
+
+def _regex_worker(args):
+    root, shard, nshards, kmain, ksub = args
+    import sys
+    sys.setrecursionlimit(20000)
+    from .context import Ctx
+    from .absint import PyRaise, Unsupported
+    from .rules.cfg_rules import PT
+    from .rules import regex_rules as R
+    from . import gen
+    ctx = Ctx(root)
+    w = ctx.world
+    pt = w.func(PT, "parse_teal")
+    parse_rx, match = w.func(R.RX, "parse_regex"), w.func(R.RX, "match_regex")
+    pats = {"int 9 / pop": "int 9\npop", "int 1 / return": "int 1\nreturn", "retsub": "retsub", "pop / m1:": "pop\nm1:"}
+    rxs = {(lbl, pn): w.call(parse_rx, f"{lbl} =>\n{p}\n") for lbl in ("*", "m1", "f") for pn, p in pats.items()}
+    out, n = [], 0
+    for k, (name, src) in enumerate(gen.programs(kmain, ksub)):
+        if k % nshards != shard:
+            continue
+        try:
+            teal = w.call(pt, src, "c")
+            for (lbl, pn), rx in rxs.items():
+                w.stdout = []
+                r = w.call(match, teal, rx)
+                w.stdout = None
+                want_m, want_c = R.reference(ctx, teal, lbl, pats[pn].splitlines())
+                n += 1
+                if want_m is None:
+                    if list(r[0]) or len(r[1]):
+                        out.append((name, src, f"{lbl} => {pn}: label absent", "matches reported", "none"))
+                    continue
+                got_m = sorted([w.getattr(i, "line") for i in m] for m in r[0])
+                got_c = sorted(w.getattr(i, "line") for i in r[1])
+                if got_m != want_m:
+                    out.append((name, src, f"matches {lbl} => {pn}", got_m, want_m))
+                elif got_c != want_c:
+                    out.append((name, src, f"covered {lbl} => {pn}", got_c, want_c))
+        except PyRaise as e:
+            out.append((name, src, "runs", f"RAISES {e.exc} {e.where}", "completes"))
+        except Unsupported as e:
+            out.append((name, src, "ANALYSIS", str(e), ""))
+    return n, out
+
+
+def sweep_regex(ctx, rep, rule="T-REGEX(sweep)", kmain=3, ksub=2):
+    rep.rule(rule, f"match_regex on every control skeleton with <= {kmain} main and <= {ksub} subroutine blocks x 4 patterns x 3 labels against "
+                   "the two-pass reference: matches and covered sets")
+    with concurrent.futures.ProcessPoolExecutor(max_workers=JOBS) as ex:
+        results = list(ex.map(_regex_worker, [(str(ctx.root), s, JOBS, kmain, ksub) for s in range(JOBS)]))
+    total = sum(n for n, _ in results)
+    bad = [x for _, o in results for x in o]
+    for name, src, what, got, want in bad:
+        if what == "ANALYSIS":
+            raise AnalysisError(f"skeleton {name}: {got}")
+    seen = {}
+    for name, src, what, got, want in bad:
+        kind = what.split()[0]
+        seen[kind] = seen.get(kind, 0) + 1
+        if seen[kind] <= 3:
+            rep.violation(rule, f"{what}: {name}", ctx.path("tealer.utils.regex.regex"), {"program": src, "got": got}, want,
+                          why="regex result differs from the reachable straight-line occurrences / the instructions leading to them")
+    good = total - len(bad)
+    rep.obligations += good
+    rep.discharged += good
+    rep.rules[rule]["obligations"] += good
+    rep.count("regex evaluations on skeletons", total)
+    rep.samples.append({"rule": rule, "case": {"evaluations": total}, "verdict": "ok" if not bad else "disagreements"})
+    if total < 1000:
+        raise AnalysisError(f"only {total} regex evaluations")
